@@ -506,6 +506,18 @@ fn literal_api_cases(cnt: &Cnt, coll: &Collector) {
                         other => coll.push(Violation::new("C12", site.clone(), "parse_arg-does-not-follow-consts", "", case(), format!("text {text} gave {other:?}"))),
                     }
                 }
+                // text that uses the constants' names as array sizes: refused or accepted, never a panic
+                let named = match kind {
+                    "nested" => "[[1; C]; R]".to_string(),
+                    "tuple" => "[(1, [true; C]); R]".to_string(),
+                    _ => "[S {v: [1; C], w: true}; R]".to_string(),
+                };
+                for t in [named.clone(), named.replace("; R]", "]")] {
+                    let t2 = t.clone();
+                    if let Err(p) = catch(|| gp.parse_arg(0, &t2).map(|a| a.as_bits().len())) {
+                        coll.push(Violation::new("C09", site.clone(), "parse_arg-rust-panic", "", case(), format!("text {t}: {p}")));
+                    }
+                }
                 // a value of the wrong length must be refused
                 if r > 0 {
                     if let Literal::Array(mut rows2) = lit.clone() {
